@@ -287,11 +287,11 @@ def check_exit(I, con, bindings, old_view, result, raised, exit_kind, self_obj, 
             check(f"exc.undeclared:{ec.__name__}", False)
         for r in matched:
             if r.when is not None:
-                check(f"raises.{r.cid}.sound", eval_clause(I, r.when, b, old_view=old_view))
+                check(f"raises.{r.cid}.sound", eval_clause(I, r.when, b, old_view=old_view, pre_state=True))
     else:
         for r in con.raises_:
             if r.when is not None:
-                f = eval_clause(I, r.when, b, old_view=old_view)
+                f = eval_clause(I, r.when, b, old_view=old_view, pre_state=True)
                 check(f"raises.{r.cid}.complete", z3.Not(_z(f)))
     for cid, lam, on in con.ensures_:
         if on == "any" or on == exit_kind:
